@@ -145,8 +145,8 @@ def insertChain (c : AggrChain) : List AggrChain → List AggrChain
 
 def sortChains (cs : List AggrChain) : List AggrChain := cs.foldr insertChain []
 
-def Sig.ofVals (tabs : Tables) (vs : List (Nat × Val)) : Sig :=
-  let tn := "KSI_Signature"
+/-- the typed view of an object that carries a signature's elements under table `tn` (a signature, an aggregation response) -/
+def Sig.ofValsIn (tabs : Tables) (tn : String) (vs : List (Nat × Val)) : Sig :=
   { chains := sortChains ((flds tabs tn 0x801 vs).filterMap (aggrOf tabs)),
     cal := (fld tabs tn 0x802 vs).bind (calOf tabs),
     pub := match fld tabs tn 0x803 vs with
@@ -156,6 +156,8 @@ def Sig.ofVals (tabs : Tables) (vs : List (Nat × Val)) : Sig :=
       | some (.obj fs) => pubDataOf tabs (fld tabs "KSI_CalendarAuthRec" 0x10 fs)
       | _ => none,
     rfc := (fld tabs tn 0x806 vs).bind (rfcOf tabs) }
+
+def Sig.ofVals (tabs : Tables) (vs : List (Nat × Val)) : Sig := Sig.ofValsIn tabs "KSI_Signature" vs
 
 /-! ## helpers of the rules -/
 
